@@ -18,6 +18,7 @@
    IsPseudoLegal-checked hash move), which the skeleton abstracts away; the closed search model of
    Model/IterDeepen.v (layer B) is where it is visible. *)
 From Coq Require Import String List NArith ZArith Bool.
+From Chess3 Require Import Proofs.LayoutNow.
 From Chess3 Require Import Model.Skel Model.SkelCheck Gen.SearchSkel Proofs.SkelInstances Proofs.SkelTheorems.
 From Chess3 Require Import Base.Bits Model.Types Model.BoardDef Model.Board Model.Movegen Spec.Chess Spec.Rep
   Spec.Applicable.
@@ -40,7 +41,7 @@ Lemma gundo_make_id : forall m b b' t, gmake m b = (b', t) -> gundo m t b' = b.
 Proof.
   intros m b b' t. unfold gmake. destruct (rep_ok b && applicable b m) eqn:G.
   - apply andb_true_iff in G. destruct G as [HR HA].
-    pose proof (C03_move_l z b m HR HA) as H. destruct (make z b m) as [b1 t1].
+    pose proof (C03_move_now_l z b m HR HA) as H. destruct (make z b m) as [b1 t1].
     intros E. inversion E. subst b' t. exact H.
   - intros E. inversion E. reflexivity.
 Qed.
@@ -48,7 +49,7 @@ Qed.
 Lemma gundo_null_id : forall b b' t, gmake_null b = (b', t) -> gundo_null t b' = b.
 Proof.
   intros b b' t. unfold gmake_null. destruct (rep_ok b) eqn:G.
-  - pose proof (C03_null_l z b G) as H. destruct (make_null z b) as [b1 t1].
+  - pose proof (C03_null_now_l z b G) as H. destruct (make_null z b) as [b1 t1].
     intros E. inversion E. subst b' t. exact H.
   - intros E. inversion E. reflexivity.
 Qed.
